@@ -641,7 +641,11 @@ class ValuedRooms(Combinator[Tuple[RoomsType, List[T]]]):
         d = data[idx]
         if not isinstance(d, tuple) or len(d) != 2:
             return None
-        rooms, values = list(map(list, zip(*sorted(zip(*d)))))
+        # order rooms the way Rooms.deserialize does (by smallest cell) so that the values stay
+        # attached to their rooms whatever the order of rooms and of cells within a room
+        rooms, values = list(
+            map(list, zip(*sorted(zip([sorted(r) for r in d[0]], d[1]), key=lambda p: p[0])))
+        )
 
         combinator = Tupl(self._room_combinator, Seq(self._value_combinator, len(rooms)))
         res = combinator.serialize(env, [([rooms], [values])], 0)
